@@ -438,6 +438,11 @@ def run_family(ck, prop, n, extra=None):
         scen.append((f"{prop.lower()}-{i}", qk, sc, grace))
     if extra:
         scen += extra(rng)
+    if ck.tier == "thorough" and prop in ("C03", "C10", "C17", "C20"):
+        # the same scenarios again on an AddressSanitizer build: a use of freed state that does not happen to crash is reported
+        # by the sanitizer (non-zero exit => the monitor's "process crashed" clause)
+        scen += [(key + "-asan", qk + ":asan", sc, grace) for (key, qk, sc, grace) in scen[:400] if not qk.startswith("UBS")]
+        ck.assumptions.append("thorough: 400 scenarios repeated on an AddressSanitizer build of the harness")
     ck.rule = RULES[prop] + "; non-trivial = at least two statements written; distinct by script"
     ck.assumptions += ["token scheduler: one logical thread runs between yield points (QUILL_VERIF hooks, interposed clock/sleep)",
                        "statement identity is carried in the message text and recovered from what the sink receives"]
